@@ -86,6 +86,9 @@ def child_env(home, repo_dir=None, extra=None):
     env["VERIF_REPO"] = repo_dir
     env["VERIF_HOME"] = home
     env.pop("PYTHONSTARTUP", None)
+    # the sandbox sets PYTHONDONTWRITEBYTECODE=1; with the pycache prefix below that would recompile every
+    # third-party import in every subprocess (2.6 s instead of 0.5 s per start)
+    env.pop("PYTHONDONTWRITEBYTECODE", None)
     if extra:
         env.update(extra)
     return env
@@ -134,7 +137,7 @@ def ensure_home(repo_dir=None, quiet=False):
             if d.startswith("home-") and d != "home-" + ch:
                 p = os.path.join(SCRATCH, d)
                 try:
-                    if time.time() - os.path.getmtime(p) > 1800:
+                    if time.time() - os.path.getmtime(p) > 6 * 3600:
                         shutil.rmtree(p, ignore_errors=True)
                 except OSError:
                     pass
